@@ -22,7 +22,27 @@ func scopeScenario(r *rng) MalType {
 	thunk := ls(sy("fn"), vc(), x)                // (fn [] x)
 	inLet := ls(sy("let"), vc(sy("y"), 0), thunk) // closure created inside a let scope of its own
 	mk := []MalType{thunk, inLet}[r.intn(2)]
-	switch r.intn(11) {
+	switch r.intn(14) {
+	case 11, 12, 13:
+		// a tail-recursive loop whose body makes a closure INSIDE A NESTED LET (so the closure's own scope is the let's, the
+		// call's parameter frame is one level up) and passes it on; each closure keeps the parameters of ITS iteration
+		n, acc, c, kk := sy("n"), sy("acc"), sy("c"), sy("kk")
+		lim := 2 + r.intn(3)
+		var body MalType
+		switch r.intn(3) {
+		case 0: // the tail call sits inside the let
+			body = ls(sy("if"), call1("<", n, lim),
+				ls(sy("let"), vc(c, ls(sy("fn"), vc(), call1("list", n, call1("count", acc)))), ls(sy("collect"), call1("+", n, 1), call1("conj", acc, c))), acc)
+		case 1: // the closure is made in a non-tail let, the tail call is outside it
+			body = ls(sy("do"), ls(sy("def"), c, ls(sy("let"), vc(kk, call1("*", n, 10)), ls(sy("fn"), vc(), call1("list", n, kk)))),
+				ls(sy("if"), call1("<", n, lim), ls(sy("collect"), call1("+", n, 1), call1("conj", acc, c)), acc))
+		default: // two levels of let, the closure reads a parameter and both let variables
+			body = ls(sy("if"), call1("<", n, lim),
+				ls(sy("let"), vc(kk, call1("*", n, 10)), ls(sy("let"), vc(c, ls(sy("fn"), vc(), call1("list", n, kk, call1("count", acc)))),
+					ls(sy("collect"), call1("+", n, 1), call1("conj", acc, c)))), acc)
+		}
+		return ls(sy("do"), ls(sy("def"), sy("collect"), ls(sy("fn"), vc(n, acc), body)),
+			call1("map", ls(sy("fn"), vc(g), tr(ls(g))), ls(sy("collect"), 0, vc())))
 	case 10:
 		// the operand of a call redefines the operator's name: the call still applies the OLD function
 		return ls(sy("do"), ls(sy("def"), g, ls(sy("fn"), vc(sy("a")), call1("list", kw("old"), sy("a")))),
